@@ -938,6 +938,10 @@ def run(ctx):
     if ctx.pid in ('C01', 'C02', 'C03'):
         from checks import c01_nodelist
         c01_nodelist.run_nodelist(ctx, ctx.pid)
+    if ctx.pid == 'C03':
+        # part 2: the executors ask for the release exactly once per task
+        from checks import c07_executor
+        c07_executor.run_exec(ctx, 'C03')
     ctx.set(rule='states = distinct (scheduler state, resources flag, '
                  'remaining events, oracle status) at loop boundaries; '
                  'transitions = loop iterations + injected events; every '
@@ -950,6 +954,9 @@ def replay(ctx, data):
     if r.get('kind') == 'nodelist':
         from checks import c01_nodelist
         return c01_nodelist.replay_nodelist(r)
+    if 'schedule' in r:
+        from checks import c07_executor
+        return c07_executor.replay(ctx, data)
     scns = [s for s in scenarios(ctx.pid, True) + scenarios(ctx.pid, False)
             if s['name'] == r['scenario']]
     if not scns:
